@@ -272,7 +272,8 @@ func init() {
 			m := tierScale(tier, 60)
 			return []core.Segment{{Kind: "corpus:buffer", N: 1640}, {Kind: "buffer", N: 16000 * m}, {Kind: "corpus:decoder", N: 820}, {Kind: "decoder", N: 8000 * m},
 				{Kind: "wrap:buffer", N: 300 * m}, {Kind: "wrap:decoder", N: 200 * m},
-				{Kind: "manyseq:buffer", N: 300 * m, Chunk: 30}, {Kind: "manyseq:decoder", N: 300 * m, Chunk: 30}}
+				{Kind: "manyseq:buffer", N: 300 * m, Chunk: 30}, {Kind: "manyseq:decoder", N: 300 * m, Chunk: 30},
+				{Kind: "longmatch:buffer", N: 12 * tierScale(tier, 4), Chunk: 2}, {Kind: "longmatch:decoder", N: 12 * tierScale(tier, 4), Chunk: 2}}
 		},
 		genC: func(r *rand.Rand, kind string, idx int64, tier string) DCase {
 			class, sut := splitKind(kind)
@@ -309,7 +310,7 @@ func init() {
 				{Kind: "faulty:decoder", N: 8000 * m}, {Kind: "bigfaulty:decoder", N: 28 * m, Chunk: 3},
 				{Kind: "manyseq:buffer", N: 300 * m, Chunk: 30}, {Kind: "manyseq:decoder", N: 300 * m, Chunk: 30},
 				{Kind: "hugetight:buffer", N: 2 * tierScale(tier, 4), Chunk: 1}, {Kind: "hugetight:decoder", N: 2 * tierScale(tier, 4), Chunk: 1},
-				{Kind: "longmatch:buffer", N: 4 * tierScale(tier, 4), Chunk: 2}, {Kind: "longmatch:decoder", N: 4 * tierScale(tier, 4), Chunk: 2}}
+				{Kind: "longmatch:buffer", N: 10 * tierScale(tier, 4), Chunk: 2}, {Kind: "longmatch:decoder", N: 6 * tierScale(tier, 4), Chunk: 2}}
 		},
 		genC: func(r *rand.Rand, kind string, idx int64, tier string) DCase {
 			class, sut := splitKind(kind)
@@ -1115,26 +1116,73 @@ func (p *c07prop) Run(c *core.Case, st *core.Stats) []core.Violation {
 	var blocks []lz.Block
 	wp := lz.Wrap(&chunkReader{data: cc.Stream, chunk: cc.Chunk, eofWithData: c.Idx%3 == 0}, ps.P)
 	var perr any
-	perr = call(func() {
-		for i := 0; ; i++ {
-			var blk lz.Block
-			fl := 0
-			if len(cc.Flags) > 0 {
-				fl = cc.Flags[i%len(cc.Flags)]
-			}
-			_, err := wp.Parse(&blk, fl)
-			if err != nil {
-				if err != io.EOF {
-					panic(fmt.Sprintf("wrapped Parse: %v", err))
+	if c.Idx%4 == 1 && cc.Chunk > 0 {
+		// the input goes in through Write from a read buffer that the caller
+		// reuses for every chunk (with a few bytes of spare capacity), as a
+		// copy loop does; Parse until the buffer is drained, Shrink, go on
+		st.Inc("parser_streams_fed_through_write")
+		perr = call(func() {
+			buf := make([]byte, cc.Chunk, cc.Chunk+8)
+			pos, i := 0, 0
+			for guard := 0; guard < 4*len(cc.Stream)+64; guard++ {
+				for pos < len(cc.Stream) {
+					n := copy(buf[:cc.Chunk], cc.Stream[pos:])
+					k, werr := ps.P.Write(buf[:n])
+					for j := range buf[:cap(buf)] {
+						buf[:cap(buf)][j] = 0xEE
+					}
+					if k < 0 || k > n {
+						panic(fmt.Sprintf("Write returned %d for %d bytes", k, n))
+					}
+					pos += k
+					if werr != nil || k < n {
+						break
+					}
 				}
-				return
+				for {
+					var blk lz.Block
+					_, err := ps.P.Parse(&blk, cc.Flags[i%len(cc.Flags)])
+					i++
+					if err == lz.ErrEmptyBuffer {
+						break
+					}
+					if err != nil {
+						panic(fmt.Sprintf("Parse: %v", err))
+					}
+					blocks = append(blocks, blk)
+					if i > 4*len(cc.Stream)+16 {
+						panic("parser does not finish")
+					}
+				}
+				if pos >= len(cc.Stream) {
+					return
+				}
+				ps.P.Shrink()
 			}
-			blocks = append(blocks, blk)
-			if i > 4*len(cc.Stream)+16 {
-				panic("wrapped parser does not finish")
+			panic("parser does not finish")
+		})
+	} else {
+		perr = call(func() {
+			for i := 0; ; i++ {
+				var blk lz.Block
+				fl := 0
+				if len(cc.Flags) > 0 {
+					fl = cc.Flags[i%len(cc.Flags)]
+				}
+				_, err := wp.Parse(&blk, fl)
+				if err != nil {
+					if err != io.EOF {
+						panic(fmt.Sprintf("wrapped Parse: %v", err))
+					}
+					return
+				}
+				blocks = append(blocks, blk)
+				if i > 4*len(cc.Stream)+16 {
+					panic("wrapped parser does not finish")
+				}
 			}
-		}
-	})
+		})
+	}
 	if perr != nil {
 		// the parser side is decided by C01/C08/C16
 		st.Inc("parser_side_failed")
